@@ -195,6 +195,44 @@ def r_overlap(ctx):
                              "%s copies bytes with an %s index loop while the destination lies %s the source inside the same storage (dst - src = %s): "
                              "overlapping bytes are overwritten before they are read" % (inst.path(), "ascending" if direction == "asc" else "descending",
                                                                                        "above" if direction == "asc" else "below", delta), span=span_of_effect(rn))
+            # (c) element-wise copy loops written with ptr::read / ptr::write inside one storage: same direction argument
+            for rn in I.all_effects(("RANGE_NEXT",)):
+                loop = {g for g in I.reachable_from(rn.gid) if rn.gid in I.reachable_from(g)} | {rn.gid}
+                reads = [e for e in I.all_effects(("READ",)) if e.gid in loop]
+                writes = [e for e in I.all_effects(("WRITE",)) if e.gid in loop]
+                for w in writes:
+                    pd = ptr_parts(w["dst"])
+                    if not pd or base_mem(pd[0]) is None:
+                        continue
+                    for r in reads:
+                        ps = ptr_parts(r["src"])
+                        if not ps or ps[0] != pd[0]:
+                            continue
+                        key = (rn.node.inst.path(), "rw-loop", rn.get("line"), fpath, an)
+                        if key in seen:
+                            continue
+                        seen.add(key)
+                        res.inst(sample={"loop": rn.node.inst.path(), "direction": rn["direction"], "read": str(r["src"]), "write": str(w["dst"]), "entry": fpath},
+                                 func=rn.node.inst.path())
+                        delta = pd[1] - ps[1]
+                        if any("rangenext" in repr(a) or (isinstance(a, tuple) and a and a[0] == "phi") for a in delta.atoms()):
+                            res.fail(rn.node.inst.path(), "unclassified-copy-loop/%s" % an, "an element-wise copy loop of %s reads and writes the same storage at offsets "
+                                     "whose difference depends on the loop index: not shown safe for overlapping ranges" % rn.node.inst.path(),
+                                     span=span_of_effect(w), kind="coverage-lost")
+                            continue
+                        guard = _ptr_order_fact(rn["facts"], r["src"], w["dst"])
+                        if rn["direction"] == "asc":
+                            safe = (-delta).nonneg_coeffs() or guard == "dst<=src"
+                        else:
+                            safe = delta.nonneg_coeffs() or guard == "dst>src"
+                        if safe:
+                            res.ok()
+                        else:
+                            res.fail(rn.node.inst.path(), "element-loop-direction/%s" % an,
+                                     "%s moves elements inside one storage with an %s index loop while the destination may lie %s the source (dst - src = %s): "
+                                     "overlapping elements are overwritten before they are read (ptr::copy handles both directions)"
+                                     % (rn.node.inst.path(), "ascending" if rn["direction"] == "asc" else "descending",
+                                        "above" if rn["direction"] == "asc" else "below", delta), span=span_of_effect(w))
     return res
 
 
